@@ -11,6 +11,7 @@ directive lines starting with `//@`:
   //@   closure <n> [params=<text up to `ret=` or end>] [ret=<text>]
   //@   before <anchor text>      /  //@ after <anchor text>   (+ following lines = inserted text)
   //@   rewrite <old> ==> <new>
+  //@   tail <name> <anchor>      block-tail expression E starting at anchor -> `let name = E; <text> name`
   //@   body_start
   //@ end
 
@@ -91,6 +92,9 @@ def build(template_path, out_path, canary=False, repo=None, mutate=None):
                                    "ret": mm.group(3), "text": ""}
                         elif op in ("before", "after"):
                             cur = {"op": op, "anchor": arg, "text": ""}
+                        elif op == "tail":
+                            nm, _, anc = arg.partition(" ")
+                            cur = {"op": "tail", "name": nm, "anchor": anc.strip(), "text": ""}
                         elif op == "rewrite":
                             if arg.endswith(" ==>"):
                                 arg += " "
